@@ -26,7 +26,7 @@ func init() {
 	register(&Stream{Name: "iatvalidate", Run: func(r *gen.Rand, n int, emit func(op, impl, class string)) {
 		for i := 0; i < n; i++ {
 			fr := r.Fork(uint64(i))
-			f, err := gen.File(fr, gen.Opts{SECs: []string{"IAT"}, MaxBatches: 1, MaxEntries: 1 + i%4, Categories: []string{"Forward", "Return", "NOC"}})
+			f, err := gen.File(fr, gen.Opts{IATCorrections: true, SECs: []string{"IAT"}, MaxBatches: 1, MaxEntries: 1 + i%4, Categories: []string{"Forward", "Return", "NOC"}})
 			if err != nil || len(f.IATBatches) == 0 {
 				continue
 			}
